@@ -5,7 +5,7 @@
    model/Evaluator.v: custom formulas over their mutable symbol tables. *)
 From Coq Require Import Reals List QArith.
 From Coq Require Import ZArith.
-From V Require Import lib.Common lib.RLib model.DefnSyntax model.Lexer model.Ini model.Callable model.Evaluator proof.C09Syntax proof.C09Lexer proof.IniProofs proof.IniFile proof.C09Ini proof.C09 proof.C12.
+From V Require Import lib.Common lib.RLib model.DefnSyntax model.Lexer model.Ini model.Callable model.Evaluator proof.C09Syntax proof.C09Lexer proof.IniProofs proof.IniFile proof.C09Ini model.Meaning proof.C09Meaning proof.C09 proof.C12.
 Import ListNotations.
 
 (* --- syntax: every definition tree (ranges, form instances, nested modifiers) is what its text parses to, and a text
@@ -69,6 +69,25 @@ Proof. exact file_value_reading. Qed.
 Theorem c09_parse_render : forall f, secs_wf [] f -> parse_ini (render_file f) = Some (expect f).
 Proof. exact parse_render. Qed.
 Print Assumptions c09_file_value_reading.
+
+(* --- from the characters to the function (model/Meaning.v; single-range definitions): `meaning` reads a text, turns the tree into
+       an expression over form instances, sum / product / pow and trans(f, as.constant X), and evaluates it.  It depends on the text
+       only through the tokens (whitespace, continuation lines), every rendering of a tree means what the tree means, and the
+       modifiers are the pointwise left-to-right folds.  On every run the characters of generated definitions are taken through
+       this whole chain inside Coq and the value is certified (interval arithmetic) against the implementation's. *)
+Theorem c09_meaning_whitespace : forall mk isc idn numv form num a w1 w2 b r, forallb is_ws w1 = true -> forallb is_ws w2 = true -> w1 <> [] -> w2 <> [] ->
+  meaning mk isc idn numv form num (a ++ w1 ++ b) r = meaning mk isc idn numv form num (a ++ w2 ++ b) r.
+Proof. exact meaning_ws. Qed.
+Theorem c09_meaning_render : forall mk isc idn numv form num d cts sp tr r, map (abs_tok idn numv) cts = print_defn d -> forallb tok_ok cts = true ->
+  seps_ok false cts sp = true -> forallb is_ws tr = true ->
+  meaning mk isc idn numv form num (render cts sp tr) r = option_map (fun e => denote_s form num e r) (to_sexpr mk isc d).
+Proof. exact meaning_render. Qed.
+Theorem c09_meaning_modifiers : forall form num a args x r,
+  denote_s form num (SFold MKSum a args) r = fold_left Rplus (map (fun e => denote_s form num e r) args) (denote_s form num a r) /\
+  denote_s form num (SFold MKProduct a args) r = fold_left Rmult (map (fun e => denote_s form num e r) args) (denote_s form num a r) /\
+  denote_s form num (SFold MKPow a args) r = fold_left Rpower (map (fun e => denote_s form num e r) args) (denote_s form num a r) /\
+  denote_s form num (STrans a x) r = denote_s form num a (r + num x)%R.
+Proof. intros. repeat split. Qed.
 
 (* --- modifiers: sum / product / pow of any number of argument potentials, each an expression of any nesting depth, are the
        pointwise left-to-right sum / product / power; trans(f, as.constant X) is f(r + X) *)
